@@ -9,7 +9,7 @@ ID = "C18"
 LEVEL = "fault_enumeration"
 RULE = ("trees with two groups in nested directories and names with spaces x DIR in {outside the tree, inside the scanned "
         "tree, on another device, relative, relative with `move` started from another directory than `group`, relative with a '..' that follows a symlinked component, absolute, with trailing slash} x pre-population of the target {nothing, "
-        "colliding file, colliding directory, colliding dangling symlink, colliding symlink to a file, colliding named pipe} (plain runs); and "
+        "colliding file, colliding directory, colliding dangling symlink, colliding symlink to a file, colliding named pipe, the (empty) parent directories of every destination already present next to an unrelated file and an unrelated empty directory} (plain runs); and "
         "for the same-device and other-device targets, empty and colliding: EVERY event k of the recorded mutating-call "
         "history with a SIGKILL before k and with call k failing with EXDEV, EIO, ENOSPC (thorough: + EPERM, EACCES). "
         "Oracle: target = DIR/<absolute source path without the leading '/'>, distinct targets, parents created, bytes "
@@ -29,7 +29,7 @@ TREE = [
     {"p": "r/m/caf\udce9", "k": "file", "c": ["base", 300, 3]},
 ]
 PLACEMENTS = ["outside", "inside", "other_device", "relative", "relative_other_cwd", "dotdot_through_symlink", "trailing_slash", "other_mount"]
-PREPOP = ["empty", "file", "dir", "dangling_symlink", "symlink_to_file", "fifo"]
+PREPOP = ["empty", "file", "dir", "dangling_symlink", "symlink_to_file", "fifo", "empty_dirs"]
 
 
 def prepare(tier):
@@ -42,7 +42,7 @@ def cases(tier, seed):
         for pp in PREPOP:
             out.append({"placement": pl, "prepop": pp, "sweep": False, "tier": tier})
     for pl in ("outside", "other_device", "other_mount"):
-        for pp in ("empty", "file", "dangling_symlink"):
+        for pp in ("empty", "file", "dangling_symlink", "empty_dirs"):
             out.append({"placement": pl, "prepop": pp, "sweep": True, "tier": tier})
     return out
 
@@ -124,7 +124,15 @@ def _evaluate(case):
             os.makedirs(sc.tree)
             C.make_tree(sc.tree, TREE)
             pp = case["prepop"]
-            if pp != "empty":
+            if pp == "empty_dirs":
+                # the parent directories of every destination exist already (empty; left by an earlier run, say),
+                # next to an unrelated file: nothing of that may be altered, whether the move succeeds or fails
+                for q in droppable:
+                    os.makedirs(os.path.dirname(tdir + q), exist_ok=True)
+                os.makedirs(os.path.join(tdir, "unrelated", "empty"), exist_ok=True)
+                with open(os.path.join(tdir, "keep.txt"), "wb") as f:
+                    f.write(b"unrelated file under DIR")
+            elif pp != "empty":
                 tp = tdir + collide
                 os.makedirs(os.path.dirname(tp), exist_ok=True)
                 if pp == "file":
@@ -174,7 +182,7 @@ def _evaluate(case):
                     viol.append(dict(feat, kind="bytes_lost", detail="%s: %s is neither complete at the source nor at %s (%s / %s)" % (ctx, p, tp, a_src, a_tgt)))
                 if fault is None:
                     collides = (tp in pre_t) or os.path.lexists(tp) and tp in pre_lex
-                    if p == collide and case["prepop"] != "empty":
+                    if p == collide and case["prepop"] not in ("empty", "empty_dirs"):
                         if not src_ok:
                             viol.append(dict(feat, kind="collision_source_removed", detail="%s: %s collided with an existing entry but is gone" % (ctx, p)))
                         elif not any("already exists" in w or os.path.basename(p) in w for w in D.warnings(res["err"])):
